@@ -61,6 +61,7 @@ def case_gen(draw, files=False):
     case = {'sep': sep, 'esc': esc, 'types': types, 'rows': rows}
     if files:
         case['repeat'] = draw(st.sampled_from([1, 50, 3000]))
+        case['longfield'] = draw(st.sampled_from([0, 0, 70000, 140000]))
     return case
 
 
@@ -133,13 +134,17 @@ def check_memory(case):
 
 
 def check_files(case):
-    ctx = {k: case[k] for k in ('sep', 'esc', 'types', 'repeat')}
+    ctx = {k: case[k] for k in ('sep', 'esc', 'types', 'repeat', 'longfield')}
     ctx['rows'] = case['rows']
     # an extra string column of multi-byte characters whose length varies from row to row, so that the 64 KiB read
     # boundaries fall inside characters
     case = dict(case, types=case['types'] + ['str'])
     pad = (chr(0xe9) + chr(0x20ac) + chr(0x1F600)) * 4
     plain_rows = [list(r) + [pad[:3 + (n % 7)]] for n, r in enumerate(list(case['rows']) * case['repeat'])]
+    if case.get('longfield'):
+        # one field longer than a read chunk (two chunks): its row spans three reads
+        k = len(plain_rows) // 2
+        plain_rows[k][-1] = ('x' + chr(0xe9) + 'y ') * (case['longfield'] // 4)
     dtype = schema(case)
     Item, _, _ = csv.create_schema_factory(dtype)
     rows = [Item(*r) for r in plain_rows]
